@@ -11,7 +11,13 @@ MinThick == 8                                 \* precondition of the statement: 
 AxisOf(f) == IF f \in {"min_x", "max_x"} THEN 0 ELSE IF f \in {"min_y", "max_y"} THEN 1 ELSE 2
 \* a dipole may point along any axis; a plane source radiating towards face f is polarised along a transverse axis
 Pols(f, k) == IF k = "plane" THEN {0, 1, 2} \ {AxisOf(f)} ELSE {0, 1, 2}
-Configs == { c \in [face : Faces, kind : Kinds, pol : 0..2, thick : Thicks] : c.pol \in Pols(c.face, c.kind) }
+\* grading of the layers (same on every face; the statement does not restrict it):
+\*   default  - library defaults (kappa = 1, alpha 0.01 w(1.55um) eps0 -> 0, cubic sigma)
+\*   kappa5 / kappa10 - real coordinate stretching graded from 1 at the interface to 5 / 10 at the outer wall
+\*   alpha5   - complex-frequency-shift parameter alpha_start five times the default
+Gradings == {"default", "kappa5", "kappa10", "alpha5"}
+KappaEndMilli(g) == CASE g = "kappa5" -> 5000 [] g = "kappa10" -> 10000 [] OTHER -> 1000
+Configs == { c \in [face : Faces, kind : Kinds, pol : 0..2, thick : Thicks, grading : Gradings] : c.pol \in Pols(c.face, c.kind) }
 
 \* ---- scaled-integer units of the log
 PeakUnits  == 1000000000      \* interior energy is logged in units of 1e-9 * (peak interior energy of the run)
